@@ -105,6 +105,7 @@ func init() {
 		f.nat("DiscFindnodePacket", discover.FindnodePacketVerif)
 		f.nat("DiscNeighborsPacket", discover.NeighborsPacketVerif)
 		f.nat("DiscNodeIDBytes", len(discover.NodeID{}))
+		f.nat("DiscVersion", discover.Version)
 		f.raw("-- package time: seconds between the internal epoch (year 1) and the Unix epoch: -time.Time{}.Unix()\n")
 		f.nat("UnixToInternal", -time.Time{}.Unix())
 
